@@ -71,9 +71,18 @@ def parallel_stream(items, worker, absorb, chunksize=64):
 
 # ------------------------------------------------------------------ native replay
 class Native:
-    def __init__(self, hooks=False):
-        self.bin, self.build_s = build.ensure_replayer(hooks)
+    def __init__(self, hooks=False, coarse=False):
+        self.hooks = hooks
+        self.bin, self.build_s = build.ensure_replayer(hooks, coarse)
         self.runs = 0
+        self._coarse = None
+
+    def coarse(self):
+        """the same replayer built with a key type whose Hash is as coarse as the contract allows (all keys collide);
+        built on first use: only needed to confirm counterexamples that rest on a hash collision of different keys"""
+        if self._coarse is None:
+            self._coarse = Native(self.hooks, coarse=True)
+        return self._coarse
 
     def run(self, scenarios, watchdog_ms=3000):
         """-> list of observation lists (one per scenario)"""
@@ -294,6 +303,19 @@ def triage(rep, native, evaluate_native, sig_of, max_replays_per_sig=2, natrun=N
                 if bad:
                     confirmed = (f2, bad, obs)
                     break
+        if confirmed is None and getattr(rep, 'hash_collisions_possible', False):
+            # the executor treats the hash of a key as an uninterpreted function (different keys may collide); the
+            # native key type `usize` never collides: retry with the coarse-hash build of the replayer
+            f = fs[0]
+            try:
+                cn = native.coarse()
+                obs = natrun(cn, f['scen']) if natrun else cn.run([f['scen']])[0]
+                rep.replays += 1
+                bad = evaluate_native(f, obs)
+                if bad:
+                    confirmed = (dict(f, msg=f['msg'] + '  [reproduced natively with a key type whose Hash maps all keys to one value]'), bad, obs)
+            except Exception as e:       # noqa
+                rep.notes.append({'coarse_hash_replayer': repr(e)[:300]})
         if confirmed is None:
             if k is not None and known_without_confirmation:
                 # timing-dependent replays (threads): a listed finding that did not reproduce in this run's attempts
